@@ -182,6 +182,48 @@ fn token_fault_case(src: &mut Src, ctx: &mut Ctx) -> Result<(), String> {
     check_text(&txt, ctx).map_err(|e| format!("{} token #{} {}: {}", base.name, t, what, e))
 }
 
+// ---- (ii-b) floods: one token (or short phrase) repeated 50 000 times, read on a small stack ---------------------
+const FLOOD_COPIES: usize = 50_000;
+const FLOOD_PHRASES: &[&str] = &["PROPERTY a 1 ;", "PROPERTY a 1", "RECT 0 0 1 1 ;", "LAYER m ;", "PORT", "END", "MACRO m", "PIN p", "OBS", "BEGINEXT \"t\"", "\"s\"", "# c\n", "( ", "ITERATE", "DO 1 BY 1 STEP 1 1", "VIA 0 0 v ;", "POLYGON 0 0 1 1 2 0", "1", "- 1", "é", "\u{2003}"];
+fn flood_total() -> u64 {
+    (REPLACEMENTS.len() + FLOOD_PHRASES.len()) as u64 * 4
+}
+fn flood_case(src: &mut Src, ctx: &mut Ctx) -> Result<(), String> {
+    let i = src.u64();
+    let np = (REPLACEMENTS.len() + FLOOD_PHRASES.len()) as u64;
+    let (pi, where_) = ((i % np) as usize, (i / np) % 4);
+    let phrase = if pi < REPLACEMENTS.len() { REPLACEMENTS[pi] } else { FLOOD_PHRASES[pi - REPLACEMENTS.len()] };
+    let base = &bases()[0];
+    // after the first quarter / half / three quarters of the tokens, or at the very start
+    let at = match where_ {
+        0 => 0,
+        k => base.toks[(base.toks.len() * k as usize / 4).min(base.toks.len() - 1)].end,
+    };
+    let mut txt = String::with_capacity(base.text.len() + (phrase.len() + 1) * FLOOD_COPIES);
+    txt.push_str(&base.text[..at]);
+    for _ in 0..FLOOD_COPIES {
+        txt.push(' ');
+        txt.push_str(phrase);
+    }
+    txt.push(' ');
+    txt.push_str(&base.text[at..]);
+    ctx.nontrivial(hash_of(&(phrase, where_)));
+    ctx.label("flood of one phrase");
+    if i % 11 == 0 {
+        ctx.sample("flood", || format!("{} copies of {:?} at byte {} of {}", FLOOD_COPIES, phrase, at, base.name));
+    }
+    // read on a thread with the default (2 MB) stack: one stack frame per token would not survive
+    let res = std::thread::Builder::new()
+        .spawn(move || {
+            let mut c = Ctx::new(false);
+            crate::engine::guard(|| check_text(&txt, &mut c)).and_then(|r| r)
+        })
+        .map_err(|e| format!("harness: cannot spawn: {}", e))?
+        .join()
+        .map_err(|_| "reader thread panicked".to_string())?;
+    res.map_err(|e| format!("{} copies of {:?} at byte {} of {}: {}", FLOOD_COPIES, phrase, at, base.name, e))
+}
+
 // ---- (iii) non-ASCII / odd characters inserted anywhere ------------------------------------------------------
 const ODD: &[&str] = &["é", "ß", "Ω", "中", "😀", "\u{a0}", "\u{85}", "\u{2003}", "\x0b", "\x0c", "\r", "\u{feff}", "\"", "#", ";", "\n", "\t", "\0", "\u{301}"];
 fn insertion_case(src: &mut Src, ctx: &mut Ctx) -> Result<(), String> {
@@ -260,11 +302,12 @@ fn scaling_case(src: &mut Src, ctx: &mut Ctx) -> Result<(), String> {
 
 fn run(run: &mut Run) {
     engine::journal::set_hang_ms(30_000);
-    run.rule("Base texts: 40 LEF texts rendered from generated libraries (half with lexical variation, a quarter with non-ASCII comments) + the repository's macro.lef. (i) every prefix at every character boundary; (ii) every single-token fault at every token (delete, duplicate, swap, replace by each of 27 keywords/numbers (incl. the extremes of the 96-bit decimal type)/punctuation/unterminated string); (iii) proptest-driven insertion of multi-byte, odd-whitespace and delimiter characters anywhere; (iv) token soup of keywords, numbers, names and arbitrary Unicode scalars; allocation scaling. Oracle: LefLibrary::open returns (panics caught; aborts and hangs caught by the supervising process with a CPU limit), also on the error-report path; an Ok library can be written and re-read without a crash. Non-trivial = faulted text differs from its base; distinct by hash of the text.");
+    run.rule("Base texts: 40 LEF texts rendered from generated libraries (half with lexical variation, a quarter with non-ASCII comments) + the repository's macro.lef. (i) every prefix at every character boundary; (ii) every single-token fault at every token (delete, duplicate, swap, replace by each of 27 keywords/numbers (incl. the extremes of the 96-bit decimal type)/punctuation/unterminated string); (ii-b) floods: each replacement token and 21 short phrases repeated 50 000 times at four places of a base text, read on a 2 MB stack; (iii) proptest-driven insertion of multi-byte, odd-whitespace and delimiter characters anywhere; (iv) token soup of keywords, numbers, names and arbitrary Unicode scalars; allocation scaling. Oracle: LefLibrary::open returns (panics caught; aborts and hangs caught by the supervising process with a CPU limit), also on the error-report path; an Ok library can be written and re-read without a crash. Non-trivial = faulted text differs from its base; distinct by hash of the text.");
     run.assume("termination = returns before the hang watchdog (30 s in flight) / 20 s CPU in isolation; linear time approximated by allocation volume at most doubling when the input doubles");
     run.min_nontrivial = 1000;
     run.enumerate("prefixes", *prefix_table().last().unwrap(), &prefix_case);
     run.enumerate("token-faults", *fault_table().last().unwrap(), &token_fault_case);
+    run.enumerate("floods", flood_total(), &flood_case);
     run.explore("odd-characters", run.tier.pick(150_000, 1_500_000), 16, &insertion_case);
     run.explore("token-soup", run.tier.pick(150_000, 1_500_000), 400, &soup_case);
     run.enumerate("alloc-scaling", run.tier.pick(4, 6), &scaling_case);
@@ -273,6 +316,7 @@ fn case(sub: &str) -> Option<Box<CaseFn<'static>>> {
     match sub {
         "prefixes" => Some(Box::new(prefix_case)),
         "token-faults" => Some(Box::new(token_fault_case)),
+        "floods" => Some(Box::new(flood_case)),
         "odd-characters" => Some(Box::new(insertion_case)),
         "token-soup" => Some(Box::new(soup_case)),
         "alloc-scaling" => Some(Box::new(scaling_case)),
